@@ -1,6 +1,7 @@
 import SpecKitV.Lemmas.SchedLtf
 import SpecKitV.Lemmas.Starts
 import SpecKitV.Lemmas.SchedNewVec
+import SpecKitV.Props.C04
 
 #print axioms ltfStep_mono
 #print axioms ltfStep_logspaced
@@ -14,3 +15,13 @@ import SpecKitV.Lemmas.SchedNewVec
 #print axioms SchedNV.searchLeft_mono
 #print axioms SchedNV.roundEven_mono
 #print axioms SchedNV.roundEven_abs_sub_le
+#print axioms ltfPlan_monotone
+#print axioms lpsdPlan_monotone
+#print axioms ltfPlan_K_formula
+#print axioms lpsdPlan_K_formula
+#print axioms ltfPlan_logspaced
+#print axioms plan_even_spread
+#print axioms plan_overlap_reported
+#print axioms findJdes_sound
+#print axioms findJdes_fuel
+#print axioms findJdes_complete
